@@ -627,7 +627,7 @@ Section World.
                let key := fst kv in
                let pre := match ufind [95%N] key O with Some i => utake (S i) key | None => [] end in
                mem_ustr pre socket_prefixes &&
-               match snd kv with JInt _ | JBool _ => true | _ => false end) m
+               match snd kv with JInt _ => true | JBool _ => negb (vr_sock_int vr) | _ => false end) m
           then Ok tt else Err EValueError
         | Some _ => Unmodelled
         end
